@@ -35,8 +35,8 @@ CHECKS = {
     "C09": ("proof", "The dispatch tables are REGENERATED from the Python AST every run and checked by `decide` against tableOK; Lean theorems for every table passing the check: dispatch_value (documented estimator evaluated, every accepted setting is the caller's, with and without Z), dispatch_floor, non-finite pass-through, kde alias, unknown name raises. Independent spy-based tie: dispatcher value vs max(0, direct call with explicit settings) bit-for-bit over the cross product of names/paths/settings, planted nan/inf/negative returns.",
             "Translator (ast pattern matching) trusted, cross-checked against spied behaviour. One open known finding (geometric-kNN Z=None path drops k/metric).",
             "Translator-regenerated Lean obligation (decide) + spy-based differential check"),
-    "C10": ("proof", "Lean theorems: kNN MI/CMI invariant under joint row permutation, X<->Y swap and Z column permutation (exact over Q), Gaussian ratio invariant under row permutation / swap / column order, KDE entropies invariant for uninterpreted exp/log; Poisson unconditional MI: closed form over the entropy vector, invariant under variable permutation / swap / column order for ANY entropy function, with poissonMI_symm_needed showing the conditional path's asymmetry is real; geometric-kNN MI/CMI: row permutation proved, swap / Z-column order proved given rotation-invariance of the local correction (…_partial). Tie: Poisson unconditional path also compared with the model value;  metamorphic check on the real functions (all estimators, conditional and unconditional paths, row permutations, all Z column permutations, swap) at 1e-9 relative, purity (equal arguments equal results, arguments unmodified).",
-            "Geometric-kNN swap/column-order theorems take invariance of the SVD-based local correction under coordinate permutations as hypothesis (checked numerically by C12). One open known finding (Poisson conditional path).",
+    "C10": ("proof", "Lean theorems: kNN MI/CMI invariant under joint row permutation, X<->Y swap and Z column permutation (exact over Q), Gaussian ratio invariant under row permutation / swap / column order, KDE entropies invariant for uninterpreted exp/log; Poisson unconditional MI: closed form over the entropy vector, invariant under variable permutation / swap / column order for ANY entropy function, with poissonMI_symm_needed showing the conditional path's asymmetry is real; geometric-kNN MI/CMI: row permutation, X<->Y swap and Z-column order proved for the mathematical SVD-based correction (…_real in C10GeomSvd.lean: a coordinate permutation is rotOf of a permutation matrix, corrMath_rot), and for an arbitrary correction functional given its invariance (…_partial). Tie: Poisson unconditional path also compared with the model value;  metamorphic check on the real functions (all estimators, conditional and unconditional paths, row permutations, all Z column permutations, swap) at 1e-9 relative, purity (equal arguments equal results, arguments unmodified).",
+            "LAPACK's floating-point SVD = the mathematical SVD is outside the theorems (tied numerically by C12's spectral tie). One open known finding (Poisson conditional path).",
             "Lean 4 invariance proofs + metamorphic testing of the implementation"),
     "C11": ("proof", "Lean theorems over Q: psi_free (for ANY psi with the digamma recurrence the KSG MI/CMI equal gamma-free harmonic-number forms), code_eq_spec (sort-whole-row/index-k/count-minus-one = k-th nearest OTHER sample / count of OTHER samples strictly inside, under tie-freeness, which is forced). KDE: definition = documented formula (thin), signed sums. Tie: exact rational value vs float result (1e-9) with near-tie filter; KDE Float evaluation of the same polymorphic definition vs sklearn-based implementation.",
             "digamma at integers = harmonic numbers (recurrence hypothesis; scipy trusted); sklearn KernelDensity bandwidth rules mirrored; float rounding by tolerance.",
